@@ -327,6 +327,34 @@ func (rec *Rec) writeMore(w *hx.World, r *Recovered, st *Stats) []Finding {
 	if v, ok := w.E.KVGet("zz-after-crash"); !ok || string(v) != "1" {
 		fnd("write-more:kv:missing", "the key written after the recovery is gone after a clean restart")
 	}
+	// ... and a log compaction on the repaired directory (it meets whatever temporary files the
+	// crash left behind), then another restart
+	if err := w.E.RewriteAOF(); err != nil {
+		fnd("compaction-after-recovery-failed", err.Error())
+	}
+	if err := w.Close(); err != nil {
+		fnd("close-after-recovery-failed", err.Error())
+	}
+	st.Recoveries++
+	oerr, pan = safeOpen(w)
+	switch {
+	case pan != "":
+		fnd("panic:open", pan)
+		return out
+	case oerr != nil:
+		fnd("open-failed", "after compaction: "+oerr.Error())
+		os.RemoveAll(w.Dir)
+		return out
+	}
+	w.Settle()
+	g4, pan := safeRead(w, rec.U, rec.RO)
+	if pan != "" {
+		fnd("panic:read", pan)
+		return out
+	}
+	if ds := rec.equalReadouts(r.G, g4); len(ds) > 0 {
+		fnd("compact-more:"+ds[0].Kind, fmt.Sprintf("%s: after recovery %q, after a compaction and a restart %q", ds[0].Key, ds[0].Want, ds[0].Got))
+	}
 	destroy(w)
 	return out
 }
